@@ -1022,3 +1022,839 @@ Proof.
 Qed.
 
 End C15.
+
+(* ================================================================== Part B: witnesses (H := identity) *)
+Definition hI (x : str) : str := x.
+Lemma hI_inj : forall a b, hI a = hI b -> a = b.
+Proof. intros a b E. exact E. Qed.
+
+Definition x_lb (n : ascii) : label := mkLabel ["p"%char] [n].
+Definition x_tg (n : ascii) (deps : list nat) : tdef :=
+  mkTD (x_lb n) ["x"%char] [] [] [mkOut OFile [n; "."%char; "o"%char]] deps [] false false BNormal false.
+(* a, b without dependencies; c depends on a and b (in this order) *)
+Definition x_s3 : sources :=
+  mkSrc [NTarget (x_tg "a" []); NTarget (x_tg "b" []); NTarget (x_tg "c" [0; 1])] [].
+Definition x_cM : config := mkCfg LMinimal true false.
+Definition x_cA : config := mkCfg LAll true false.
+Definition x_pa : str := ["p"; "/"; "a"; "."; "o"]%char.
+Definition x_pb : str := ["p"; "/"; "b"; "."; "o"]%char.
+Definition x_pc : str := ["p"; "/"; "c"; "."; "o"]%char.
+
+Definition drop_result (k : str) (c : cache) : cache :=
+  mkCache (filter (fun e => negb (str_eqb k (fst e))) (c_results c)) (c_cas c) (c_taint c).
+Definition key_of_node (b : bstate) (j : nat) : str :=
+  match rt_key (get_rt b j) with Some k => k | None => [] end.
+
+(* the cache after a first build of c; then c is tainted, every output is wiped and a second build in
+   mode minimal has served a and b from the cache (not loaded); now a's target result becomes
+   unreadable, and the task of c loads its dependency outputs *)
+Definition x_c1 : cache := br_cache (build hI x_cM x_s3 [2] (mkWorld [] []) empty_cache).
+Definition x_pre : bstate :=
+  build_prefix hI x_cM x_s3 [2] (mkWorld [] []) (mkCache (c_results x_c1) (c_cas x_c1) [x_lb "c"]) 2.
+Definition x_fault : bstate := set_cache x_pre (drop_result (key_of_node x_pre 0) (b_cache x_pre)).
+
+Lemma x_s3_wf : wf_src x_s3.
+Proof.
+  intros i n Hn d Hd. destruct i as [|[|[|i]]]; cbn in Hn.
+  - inversion Hn; subst. destruct Hd.
+  - inversion Hn; subst. destruct Hd.
+  - inversion Hn; subst. cbn in Hd. lia.
+  - destruct i; discriminate.
+Qed.
+
+Lemma x_s3_no_overwrite : no_overwrite x_s3.
+Proof.
+  unfold no_overwrite. vm_compute. repeat constructor; simpl; intuition discriminate.
+Qed.
+
+Lemma loaded_ok_none s b :
+  forallb (fun r => negb (rt_loaded r)) (b_rt b) = true -> loaded_ok s b.
+Proof.
+  intros Hall j tj _ Hl. exfalso. rewrite forallb_forall in Hall. unfold get_rt in Hl.
+  destruct (lt_dec j (length (b_rt b))) as [Hj|Hj].
+  - specialize (Hall _ (nth_In _ rt0 Hj)). rewrite Hl in Hall. discriminate.
+  - rewrite nth_overflow in Hl by lia. discriminate.
+Qed.
+
+(* the early RETURN: a is re-run, the loop returns success, b's output was never loaded, c's command
+   cannot read it *)
+Theorem deps_present_refuted :
+  exists cfg s f ds b b',
+    wf_src s /\ no_overwrite s /\ rt_len b = length (s_nodes s) /\ loaded_ok s b /\
+    load_dep_outputs hI f cfg s ds b = (true, b') /\
+    exists d j tj o, In d ds /\ resolve s d = Some (j, tj) /\ In o (td_outs tj) /\
+      rt_loaded (get_rt b' j) = false /\
+      ws_get (out_path tj o) (w_ws (b_world b')) = PAbsent /\
+      dep_parts s (w_ws (b_world b')) ds = None.
+Proof.
+  exists x_cM, x_s3, 4, [0; 1], x_fault, (snd (load_dep_outputs hI 4 x_cM x_s3 [0; 1] x_fault)).
+  split; [exact x_s3_wf|]. split; [exact x_s3_no_overwrite|]. split; [vm_compute; reflexivity|].
+  split; [apply loaded_ok_none; vm_compute; reflexivity|]. split; [vm_compute; reflexivity|].
+  exists 1, 1, (x_tg "b" []), (mkOut OFile ["b"; "."; "o"]%char).
+  split; [right; left; reflexivity|]. split; [vm_compute; reflexivity|].
+  split; [left; reflexivity|]. repeat split; vm_compute; reflexivity.
+Qed.
+
+(* ... and the task of c then fails although nothing is wrong with c; without the fault it executes *)
+Theorem early_return_fails_dependant :
+  rt_status (get_rt (process_target hI x_cM x_s3 2 (x_tg "c" [0; 1]) x_fault) 2) = TFailed /\
+  rt_status (get_rt (process_target hI x_cM x_s3 2 (x_tg "c" [0; 1]) x_pre) 2) = TExecuted.
+Proof. repeat split; vm_compute; reflexivity. Qed.
+
+Definition x_ops_results (m : lmode) : list op :=
+  [OpSources x_s3; OpBuild (mkCfg m true false) [2];
+   OpPerturb x_pa PAbsent; OpPerturb x_pb PAbsent; OpPerturb x_pc PAbsent; OpDropResults;
+   OpBuild (mkCfg m true false) [2]].
+Definition x_ops_blob (m : lmode) : list op :=
+  [OpSources x_s3; OpBuild (mkCfg m true false) [2]; OpDropBlob x_pa; OpPerturb x_pa PAbsent;
+   OpBuild (mkCfg m true false) [2]].
+Definition br0 : build_result := mkBR (mkWorld [] []) empty_cache [] [] false.
+Definition x_log (ops : list op) (k : nat) : build_result := nth k (sy_log (run_history hI ops)) br0.
+
+(* losing every target result BETWEEN two builds does not reach the early RETURN: both modes re-run
+   a, b, c and succeed (inside one build a successful dependency always has a readable result:
+   build_deps_present) *)
+Example results_lost_between_builds_agree :
+  br_ok (x_log (x_ops_results LAll) 1) = true /\ br_ok (x_log (x_ops_results LMinimal) 1) = true /\
+  br_exec (x_log (x_ops_results LAll) 1) = [x_lb "a"; x_lb "b"; x_lb "c"] /\
+  br_exec (x_log (x_ops_results LMinimal) 1) = [x_lb "a"; x_lb "b"; x_lb "c"].
+Proof. repeat split; vm_compute; reflexivity. Qed.
+
+(* a lost blob DOES separate the modes: "all" cannot restore a's output and re-runs a, "minimal" serves
+   everything from the cache and runs nothing *)
+Theorem lockstep_refuted_dropblob :
+  exists (ops : lmode -> list op) s roots p,
+    (forall m, ops m = [OpSources s; OpBuild (mkCfg m true false) roots; OpDropBlob p;
+                        OpPerturb p PAbsent; OpBuild (mkCfg m true false) roots]) /\
+    wf_src s /\ no_overwrite s /\
+    br_ok (nth 1 (sy_log (run_history hI (ops LAll))) br0) = true /\
+    br_ok (nth 1 (sy_log (run_history hI (ops LMinimal))) br0) = true /\
+    length (br_exec (nth 1 (sy_log (run_history hI (ops LAll))) br0)) = 1 /\
+    br_exec (nth 1 (sy_log (run_history hI (ops LMinimal))) br0) = [].
+Proof.
+  exists x_ops_blob, x_s3, [2], x_pa. split; [intro m; reflexivity|].
+  split; [exact x_s3_wf|]. split; [exact x_s3_no_overwrite|].
+  repeat split; vm_compute; reflexivity.
+Qed.
+
+(* ================================================================== Part C: lock-step all / minimal *)
+Section Lockstep.
+Variable H : str -> str.
+Hypothesis H_inj : forall a b, H a = H b -> a = b.
+
+(* ------------------------------------------------------------------ cache invariant: complete and sound *)
+(* every blob a stored result refers to is in the CAS and is the content with that digest (nothing is
+   deleted between builds: no OpDropBlob), and the CAS maps digests to their contents *)
+Definition res_ok (c : cache) : Prop :=
+  forall k r def dg, rlookup k (c_results c) = Some r -> In (def, dg) (r_outs r) ->
+    exists o x, def = out_def o /\ dg = out_digest H o x /\ alookup dg (c_cas c) = Some x.
+
+Definition cinv (c : cache) : Prop := cas_sound H (c_cas c) /\ res_ok c.
+
+Definition nowk (ws : list (str * pstate)) : Prop := forall p, ws_get p ws <> PWrongKind.
+
+Lemma nowk_le ws ws' : wk_le ws' ws -> nowk ws -> nowk ws'.
+Proof. intros Hle Hn p Hp. apply (Hn p). apply Hle, Hp. Qed.
+
+Lemma NoDup_map_neq {A B} (f : A -> B) (l : list A) x y :
+  NoDup (map f l) -> In x l -> In y l -> x <> y -> f x <> f y.
+Proof.
+  induction l as [|a l IH]; intros Hnd Hx Hy Hne; [destruct Hx|].
+  cbn [map] in Hnd. inversion Hnd as [|? ? Hn Hnd']; subst.
+  destruct Hx as [->|Hx]; destruct Hy as [->|Hy].
+  - congruence.
+  - intro E. apply Hn. rewrite E. apply in_map, Hy.
+  - intro E. apply Hn. rewrite <- E. apply in_map, Hx.
+  - apply IH; auto.
+Qed.
+
+(* a successful restore leaves, at every output, bytes with the recorded digest or the CAS blob *)
+Lemma load_all_cur c t : forall rs ws ws',
+  NoDup (map fst rs) -> NoDup (map (out_path t) (td_outs t)) ->
+  load_all H c t rs ws = (true, ws') ->
+  forall def dg o, In (def, dg) rs -> find_out (td_outs t) def = Some o ->
+    exists x, ws_get (out_path t o) ws' = PFile x /\
+              (out_digest H o x = dg \/ alookup dg (c_cas c) = Some x).
+Proof.
+  induction rs as [|[def0 dg0] rs IH]; intros ws ws' Hnd Hno E def dg o Hin Hf; [destruct Hin|].
+  cbn [map fst] in Hnd. inversion Hnd as [|? ? Hn0 Hnd']; subst.
+  cbn [load_all] in E.
+  destruct (find_out (td_outs t) def0) as [o0|] eqn:Ef0;
+    [|destruct (load_all H c t rs ws); discriminate].
+  destruct (load_one H c t o0 dg0 ws) as [ws1|] eqn:El;
+    [|destruct (load_all H c t rs ws); discriminate].
+  destruct Hin as [Heq|Hin]; [|eapply IH; eauto].
+  inversion Heq; subst def0 dg0; clear Heq. rewrite Ef0 in Hf. inversion Hf; subst o0; clear Hf.
+  destruct (Build_c01_proofs.load_one_spec H _ _ _ _ _ _ El) as [_ (x & Hx & Hd)].
+  exists x. split; [|exact Hd]. rewrite <- Hx.
+  apply (Build_c01_proofs.load_all_keep H _ _ _ _ _ _ E).
+  intros def1 dg1 o1 Hin1 Hf1 Ep.
+  destruct (Build_c01_proofs.find_out_spec _ _ _ Hf1) as [Ho1 Hd1].
+  destruct (Build_c01_proofs.find_out_spec _ _ _ Ef0) as [Ho Hd0].
+  assert (Hne : o1 <> o).
+  { intro Eo. subst o1. apply Hn0. rewrite <- Hd0, Hd1.
+    apply (in_map fst) in Hin1. exact Hin1. }
+  apply (NoDup_map_neq (out_path t) (td_outs t) o1 o Hno Ho1 Ho Hne). exact Ep.
+Qed.
+
+(* the digest recorded in a sound result pins the bytes *)
+Lemma cur_digest c k r def dg o x :
+  cinv c -> rlookup k (c_results c) = Some r -> In (def, dg) (r_outs r) -> out_def o = def ->
+  (out_digest H o x = dg \/ alookup dg (c_cas c) = Some x) -> out_digest H o x = dg.
+Proof.
+  intros [_ Hres] Hr Hin Hdef [Hd|Hc]; [exact Hd|].
+  destruct (Hres k r def dg Hr Hin) as (o2 & x2 & Hd2 & Hg2 & Hc2).
+  rewrite Hc in Hc2. inversion Hc2; subst x2.
+  assert (o2 = o) by (apply out_def_inj; congruence). subst o2. auto.
+Qed.
+
+Lemma outputs_match_nodup t r :
+  NoDup (map (out_path t) (td_outs t)) -> outputs_match t r = true -> NoDup (map fst (r_outs r)).
+Proof.
+  intros Hnd Hm. apply outputs_match_perm in Hm.
+  eapply Permutation_NoDup; [exact Hm|].
+  apply FinFun.Injective_map_NoDup; [intros a b; apply out_def_inj|].
+  eapply NoDup_map_inv. exact Hnd.
+Qed.
+
+(* when a restore is bound to succeed *)
+Lemma restorable_ok c t ws k r :
+  cinv c -> nowk ws -> rlookup k (c_results c) = Some r -> outputs_match t r = true ->
+  restorable c t ws (r_outs r).
+Proof.
+  intros [_ Hres] Hwk Hr Hm def dg Hin.
+  destruct (outputs_match_find t r def dg Hm Hin) as [o Ho]. exists o. split; [exact Ho|]. split.
+  - destruct (Hres k r def dg Hr Hin) as (o2 & x2 & _ & _ & Hc). rewrite Hc. discriminate.
+  - intros _. apply Hwk.
+Qed.
+
+(* ------------------------------------------------------------------ CAS after OnTargetComplete *)
+Lemma cas_fold_sound3 : forall ds cas,
+  cas_sound H cas -> (forall e, In e ds -> blob_ok H (snd (fst e)) (snd e)) ->
+  cas_sound H (cas_fold ds cas) /\
+  forall e, In e ds -> alookup (snd (fst e)) (cas_fold ds cas) = Some (snd e).
+Proof.
+  unfold cas_fold. induction ds as [|e0 ds IH]; intros cas Hs Hb; [split; [exact Hs | intros e []]|].
+  cbn [fold_left].
+  assert (Hb0 : blob_ok H (snd (fst e0)) (snd e0)) by (apply Hb; left; reflexivity).
+  destruct (IH (cas_add (snd (fst e0)) (snd e0) cas)) as [Hs' Hhas].
+  - apply cas_add_sound; assumption.
+  - intros e He. apply Hb. right. exact He.
+  - split; [exact Hs'|]. intros e [<-|He]; [|apply Hhas, He].
+    apply (Build_c02_proofs.cas_fold_mono ds). apply (cas_add_has H H_inj); assumption.
+Qed.
+
+Lemma present_digests_struct t ws : forall outs ds,
+  present_digests H t outs ws = Some ds ->
+  forall e, In e ds -> exists o x, e = (o, out_digest H o x, x) /\ In o outs /\
+                                   ws_get (out_path t o) ws = PFile x.
+Proof.
+  induction outs as [|o outs IH]; intros ds E e He; cbn [present_digests] in E.
+  - inversion E; subst. destruct He.
+  - destruct (ws_get (out_path t o) ws) as [| |x|] eqn:Ecur; try discriminate.
+    destruct (present_digests H t outs ws) as [rest|]; [|discriminate].
+    inversion E; subst ds. destruct He as [<-|He].
+    + exists o, x. split; [reflexivity|]. split; [left; reflexivity | exact Ecur].
+    + destruct (IH rest eq_refl e He) as (o' & x' & He' & Ho' & Hx').
+      exists o', x'. split; [exact He'|]. split; [right; exact Ho' | exact Hx'].
+Qed.
+
+(* ------------------------------------------------------------------ the command, run twice *)
+Lemma write_outs_agree s t reads skip : forall outs k ws1 ws2 p,
+  (In p (map (out_path t) outs) \/ ws_get p ws1 = ws_get p ws2) ->
+  ws_get p (write_outs s t k outs reads skip ws1) = ws_get p (write_outs s t k outs reads skip ws2).
+Proof.
+  induction outs as [|o outs IH]; intros k ws1 ws2 p Hp; cbn [write_outs].
+  - destruct Hp as [[]|Hp]; exact Hp.
+  - apply IH. cbn [map] in Hp.
+    destruct (str_eq_dec (out_path t o) p) as [E|Hne].
+    + right. subst p.
+      destruct skip as [j|]; [destruct (Nat.eqb j k)|]; rewrite !ws_get_set_same; reflexivity.
+    + destruct Hp as [[E|Hin]|Heq]; [contradiction | left; exact Hin | right].
+      destruct skip as [j|]; [destruct (Nat.eqb j k)|]; rewrite !ws_get_set_other by exact Hne; exact Heq.
+Qed.
+
+Lemma run_command_rel s t wA wM :
+  dep_parts s (w_ws wA) (td_deps t) = dep_parts s (w_ws wM) (td_deps t) -> w_ext wA = w_ext wM ->
+  match run_command s t wA, run_command s t wM with
+  | Some a, Some m =>
+      w_ext a = w_ext m /\
+      forall o, In o (td_outs t) -> ws_get (out_path t o) (w_ws a) = ws_get (out_path t o) (w_ws m)
+  | None, None => True
+  | _, _ => False
+  end.
+Proof.
+  intros Hd He. unfold run_command. rewrite Hd, He.
+  destruct (td_beh t); try exact I;
+    destruct (dep_parts s (w_ws wM) (td_deps t)) as [reads|]; try exact I;
+    (split; [reflexivity|]; intros o Ho; cbn [w_ws]; apply write_outs_agree; left; apply in_map, Ho).
+Qed.
+
+Lemma present_digests_ext t ws1 ws2 : forall outs,
+  (forall o, In o outs -> ws_get (out_path t o) ws1 = ws_get (out_path t o) ws2) ->
+  present_digests H t outs ws1 = present_digests H t outs ws2.
+Proof.
+  induction outs as [|o outs IH]; intro Hp; cbn [present_digests]; [reflexivity|].
+  rewrite (Hp o (or_introl eq_refl)). rewrite IH; [reflexivity|].
+  intros o' Ho'. apply Hp. right. exact Ho'.
+Qed.
+
+Lemma oc_pair_cfg cfg cfg' t key c ds :
+  cfg_cache cfg = cfg_cache cfg' -> oc_pair H cfg t key c ds = oc_pair H cfg' t key c ds.
+Proof. intro E. unfold oc_pair. rewrite E. reflexivity. Qed.
+
+Lemma dep_parts_of_ext ws1 ws2 dt : forall outs,
+  (forall o, In o outs -> ws_get (out_path dt o) ws1 = ws_get (out_path dt o) ws2) ->
+  dep_parts_of ws1 dt outs = dep_parts_of ws2 dt outs.
+Proof.
+  induction outs as [|o outs IH]; intro Hp; cbn [dep_parts_of]; [reflexivity|].
+  rewrite (Hp o (or_introl eq_refl)). rewrite IH; [reflexivity|].
+  intros o' Ho'. apply Hp. right. exact Ho'.
+Qed.
+
+Lemma dep_parts_ext s ws1 ws2 : forall ds,
+  (forall d j tj o, In d ds -> resolve s d = Some (j, tj) -> In o (td_outs tj) ->
+     ws_get (out_path tj o) ws1 = ws_get (out_path tj o) ws2) ->
+  dep_parts s ws1 ds = dep_parts s ws2 ds.
+Proof.
+  induction ds as [|d ds IH]; intro Hp; cbn [dep_parts]; [reflexivity|].
+  destruct (resolve s d) as [[j tj]|] eqn:Er; [|reflexivity].
+  rewrite (dep_parts_of_ext ws1 ws2 tj (td_outs tj)).
+  - rewrite IH; [reflexivity|]. intros d' j' tj' o Hd'. apply Hp. right. exact Hd'.
+  - intros o Ho. apply (Hp d j tj o (or_introl eq_refl) Er Ho).
+Qed.
+
+(* ------------------------------------------------------------------ one build, both modes *)
+Section Build1.
+Variables (cfgA cfgM : config) (s : sources).
+Hypothesis HmA : cfg_mode cfgA = LAll.
+Hypothesis HmM : cfg_mode cfgM = LMinimal.
+Hypothesis HcA : cfg_cache cfgA = true.
+Hypothesis HcM : cfg_cache cfgM = true.
+Hypothesis Hff : cfg_failfast cfgA = cfg_failfast cfgM.
+Hypothesis Hno : no_overwrite s.
+Hypothesis Hpl : plain s.
+
+(* the outputs of target j in the workspace are the ones its result (under this build's key) records *)
+Definition cur (b : bstate) (j : nat) (tj : tdef) : Prop :=
+  exists key r, rt_key (get_rt b j) = Some key /\ rlookup key (c_results (b_cache b)) = Some r /\
+    rt_ohash (get_rt b j) = Some (r_outhash r) /\ outputs_match tj r = true /\
+    forall o dg, In o (td_outs tj) -> In (out_def o, dg) (r_outs r) ->
+      exists x, ws_get (out_path tj o) (w_ws (b_world b)) = PFile x /\ out_digest H o x = dg.
+
+(* mode all: every successful target is restored and current *)
+Definition coreA (b : bstate) : Prop :=
+  cinv (b_cache b) /\ nowk (w_ws (b_world b)) /\ rt_len b = length (s_nodes s) /\
+  (forall j tj, node_at s j = Some (NTarget tj) -> dep_ok b j = true ->
+     rt_loaded (get_rt b j) = true /\ cur b j tj).
+
+(* mode all, before node k; c0 is the cache the build started from *)
+Definition goodA (c0 : cache) (k : nat) (b : bstate) : Prop :=
+  coreA b /\ (forall j, k <= j -> get_rt b j = rt0) /\
+  (forall key, rlookup key (c_results (b_cache b)) = rlookup key (c_results c0) \/
+               exists j, rt_key (get_rt b j) = Some key).
+
+(* mode all (bA) against mode minimal (bM) *)
+Definition sim (bA bM : bstate) : Prop :=
+  b_cache bA = b_cache bM /\ b_exec bA = b_exec bM /\ b_stop bA = b_stop bM /\
+  w_ext (b_world bA) = w_ext (b_world bM) /\ rt_len bA = rt_len bM /\
+  (forall j, rt_key (get_rt bA j) = rt_key (get_rt bM j) /\
+             rt_ohash (get_rt bA j) = rt_ohash (get_rt bM j) /\
+             rt_status (get_rt bA j) = rt_status (get_rt bM j)) /\
+  nowk (w_ws (b_world bM)) /\
+  (forall j tj, node_at s j = Some (NTarget tj) -> rt_loaded (get_rt bM j) = true ->
+     dep_ok bM j = true /\
+     forall o, In o (td_outs tj) ->
+       ws_get (out_path tj o) (w_ws (b_world bM)) = ws_get (out_path tj o) (w_ws (b_world bA))).
+
+Lemma sim_dep_ok bA bM j : sim bA bM -> dep_ok bM j = dep_ok bA j.
+Proof. intros (_ & _ & _ & _ & _ & Hrt & _). unfold dep_ok. rewrite (proj2 (proj2 (Hrt j))). reflexivity. Qed.
+
+Lemma own_nodup j tj : node_at s j = Some (NTarget tj) -> NoDup (map (out_path tj) (td_outs tj)).
+Proof. intro Hn. eapply no_overwrite_own; eauto. Qed.
+
+
+Lemma outputs_match_entry t r o :
+  outputs_match t r = true -> In o (td_outs t) ->
+  exists dg, In (out_def o, dg) (r_outs r) /\ find_out (td_outs t) (out_def o) = Some o.
+Proof.
+  intros Hm Ho. pose proof (outputs_match_perm t r Hm) as Hp.
+  assert (Hd : In (out_def o) (map fst (r_outs r))).
+  { eapply Permutation_in; [exact Hp|]. apply in_map. exact Ho. }
+  apply in_map_iff in Hd as ([def dg] & Hdef & Hin). cbn [fst] in Hdef. subst def.
+  exists dg. split; [exact Hin|].
+  destruct (outputs_match_find t r _ _ Hm Hin) as [o' Ho']. rewrite Ho'. f_equal.
+  apply Build_c01_proofs.find_out_spec in Ho' as [_ Hd]. apply out_def_inj. exact Hd.
+Qed.
+
+(* mode minimal restores a successful dependency exactly as mode all did *)
+Lemma load_dep_M bA bM j tj :
+  coreA bA -> sim bA bM -> node_at s j = Some (NTarget tj) -> dep_ok bA j = true ->
+  exists key r b1,
+    rt_key (get_rt bM j) = Some key /\ rlookup key (c_results (b_cache bM)) = Some r /\
+    load_outputs H j tj r bM = (true, b1) /\ sim bA b1 /\ rt_loaded (get_rt b1 j) = true /\
+    (forall i, rt_loaded (get_rt bM i) = true -> rt_loaded (get_rt b1 i) = true).
+Proof.
+  intros (Hci & HwkA & HlenA & Hgood) HS Hn Hok.
+  pose proof HS as (Sc & Sx & Ss & Se & Sl & Srt & SwkM & Sld).
+  destruct (Hgood j tj Hn Hok) as [HldA (key & r & Hk & Hr & Hoh & Hm & Hcont)].
+  exists key, r. rewrite <- (proj1 (Srt j)), <- Sc.
+  destruct (rt_loaded (get_rt bM j)) eqn:El.
+  { exists bM. split; [exact Hk|]. split; [exact Hr|]. unfold load_outputs. rewrite El. auto. }
+  assert (HciM : cinv (b_cache bM)) by (rewrite <- Sc; exact Hci).
+  assert (HrM : rlookup key (c_results (b_cache bM)) = Some r) by (rewrite <- Sc; exact Hr).
+  pose proof (load_outputs_ok H j tj r bM El Hm (restorable_ok _ _ _ _ _ HciM SwkM HrM Hm)) as Hfst.
+  destruct (load_outputs H j tj r bM) as [ok b1] eqn:E. cbn [fst] in Hfst. subst ok.
+  exists b1. split; [exact Hk|]. split; [exact Hr|]. split; [reflexivity|].
+  pose proof E as E'. apply load_outputs_cases in E' as [(Hf & _)|(_ & ws' & Ela & Hb)];
+    [discriminate | | exact El].
+  cbn zeta in Hb.
+  assert (Hj : j < rt_len (set_world bM (mkWorld ws' (w_ext (b_world bM))))).
+  { rewrite rt_len_set_world, <- Sl, HlenA. eapply node_at_lt; eauto. }
+  assert (Hws : w_ws (b_world b1) = ws') by (subst b1; reflexivity).
+  assert (Hoth : forall i, i <> j -> get_rt b1 i = get_rt bM i).
+  { intros i Hi. subst b1. rewrite get_rt_set_rt_other by auto. reflexivity. }
+  assert (Hsame : get_rt b1 j = mkRt (rt_key (get_rt bM j)) (Some (r_outhash r)) true (rt_status (get_rt bM j))).
+  { subst b1. rewrite get_rt_set_rt_same by exact Hj. reflexivity. }
+  split; [|split; [rewrite Hsame; reflexivity|]].
+  2:{ intros i Hi'. destruct (Nat.eq_dec i j) as [->|Hne]; [rewrite Hsame; reflexivity|].
+      rewrite Hoth by exact Hne. exact Hi'. }
+  split; [subst b1; exact Sc|]. split; [subst b1; exact Sx|]. split; [subst b1; exact Ss|].
+  split; [subst b1; exact Se|]. split; [subst b1; rewrite rt_len_set_rt, rt_len_set_world; exact Sl|].
+  split; [|split].
+  - intro i. destruct (Nat.eq_dec i j) as [->|Hi]; [|rewrite Hoth by exact Hi; apply Srt].
+    rewrite Hsame. cbn [rt_key rt_ohash rt_status]. destruct (Srt j) as (K1 & _ & K3). auto.
+  - rewrite Hws. eapply nowk_le; [|exact SwkM].
+    pose proof (load_all_wk H (b_cache bM) tj (r_outs r) (w_ws (b_world bM))) as Hle.
+    rewrite Ela in Hle. exact Hle.
+  - intros i ti Hni Hli. destruct (Nat.eq_dec i j) as [->|Hi].
+    + rewrite Hni in Hn. inversion Hn; subst ti. split.
+      * unfold dep_ok. rewrite Hsame. cbn [rt_status]. rewrite <- (proj2 (proj2 (Srt j))). exact Hok.
+      * intros o Ho. destruct (outputs_match_entry tj r o Hm Ho) as (dg & Hin & Hf).
+        destruct (load_all_cur _ _ _ _ _ (outputs_match_nodup tj r (own_nodup j tj Hni) Hm)
+                    (own_nodup j tj Hni) Ela _ _ _ Hin Hf) as (xM & HxM & HdM).
+        pose proof (cur_digest _ _ _ _ _ _ _ HciM HrM Hin eq_refl HdM) as HgM.
+        destruct (Hcont o dg Ho Hin) as (xA & HxA & HgA).
+        rewrite Hws, HxM, HxA. f_equal. apply (out_digest_inj H H_inj o). congruence.
+    + rewrite Hoth in Hli by exact Hi. destruct (Sld i ti Hni Hli) as [Hd Hw]. split.
+      * unfold dep_ok. rewrite Hoth by exact Hi. exact Hd.
+      * intros o Ho. rewrite <- (Hw o Ho). rewrite Hws.
+        apply (Build_c01_proofs.load_all_frame H _ _ _ _ _ _ Ela).
+        intros o' Ho'. apply (no_overwrite_other s i j ti tj o o'); auto.
+Qed.
+
+(* LoadDependencyOutputs in mode minimal, fault-free: it only restores, nothing is re-run *)
+Lemma ldo_M bA : coreA bA ->
+  forall ds f bM, sim bA bM -> length ds < f ->
+  (forall d j tj, In d ds -> resolve s d = Some (j, tj) -> dep_ok bA j = true) ->
+  exists bM', load_dep_outputs H f cfgM s ds bM = (true, bM') /\ sim bA bM' /\
+    (forall i, rt_loaded (get_rt bM i) = true -> rt_loaded (get_rt bM' i) = true) /\
+    (forall d j tj, In d ds -> resolve s d = Some (j, tj) -> rt_loaded (get_rt bM' j) = true).
+Proof.
+  intro HG. induction ds as [|d0 ds IH]; intros f bM HS Hf Hdeps.
+  - destruct f; [cbn in Hf; lia|]. exists bM. cbn [load_dep_outputs].
+    split; [reflexivity|]. split; [exact HS|]. split; [auto|]. intros d j tj [].
+  - destruct f as [|f]; [cbn in Hf; lia|]. cbn [length] in Hf. cbn [load_dep_outputs].
+    assert (Hdeps' : forall d j tj, In d ds -> resolve s d = Some (j, tj) -> dep_ok bA j = true).
+    { intros d j tj Hd. apply Hdeps. right. exact Hd. }
+    destruct (resolve s d0) as [[j tj]|] eqn:Er.
+    + pose proof (resolve_target _ _ _ _ Er) as Hn.
+      destruct (load_dep_M bA bM j tj HG HS Hn (Hdeps d0 j tj (or_introl eq_refl) Er))
+        as (key & r & b1 & Hk & Hr & El & HS1 & Hl1 & Hmono1).
+      rewrite Hk, Hr, El. destruct (plain_target s j tj Hpl Hn) as [_ Hnc]. rewrite Hnc.
+      cbn [negb orb andb].
+      destruct (IH f b1 HS1 ltac:(lia) Hdeps') as (bM' & E & HS' & Hmono & Hall).
+      exists bM'. split; [exact E|]. split; [exact HS'|]. split; [auto|].
+      intros d j' tj' [<-|Hd] Hres; [|eapply Hall; eauto].
+      rewrite Er in Hres. inversion Hres; subst j' tj'. apply Hmono, Hl1.
+    + destruct (IH f bM HS ltac:(lia) Hdeps') as (bM' & E & HS' & Hmono & Hall).
+      exists bM'. split; [exact E|]. split; [exact HS'|]. split; [exact Hmono|].
+      intros d j' tj' [<-|Hd] Hres; [congruence | eapply Hall; eauto].
+Qed.
+
+(* ------------------------------------------------------------------ executeTarget in both runs *)
+Definition done_cache (cfg : config) (t : tdef) (key : str) (tn : bool) (c : cache)
+           (ds : list (outdef * str * str)) : cache :=
+  let c1 := mkCache (results_set key (fst (oc_pair H cfg t key c ds)) (c_results c))
+                    (snd (oc_pair H cfg t key c ds)) (c_taint c) in
+  if tn then mkCache (c_results c1) (c_cas c1) (label_remove (td_label t) (c_taint c1)) else c1.
+
+Lemma exec_done_cache cfg i t key tn b w' ds :
+  b_cache (exec_done H cfg i t key tn b w' ds) = done_cache cfg t key tn (b_cache b) ds.
+Proof.
+  unfold exec_done, done_cache, untaint, oc_state. cbv zeta.
+  destruct tn; autorewrite with bst; rewrite ?exec_b0_cache; reflexivity.
+Qed.
+
+Lemma exec_done_rt cfg i t key tn b w' ds :
+  i < rt_len b ->
+  get_rt (exec_done H cfg i t key tn b w' ds) i =
+  mkRt (rt_key (get_rt b i)) (Some (r_outhash (fst (oc_pair H cfg t key (b_cache b) ds)))) true
+       (rt_status (get_rt b i)).
+Proof.
+  intro Hi. unfold exec_done. rewrite untaint_get_rt, oc_state_get_rt_same.
+  - rewrite get_rt_set_world, exec_b0_get_rt. reflexivity.
+  - rewrite rt_len_set_world. unfold rt_len. rewrite exec_b0_rt. exact Hi.
+Qed.
+
+Lemma exec_done_world cfg i t key tn b w' ds : b_world (exec_done H cfg i t key tn b w' ds) = w'.
+Proof. unfold exec_done. rewrite untaint_world, oc_state_world. reflexivity. Qed.
+
+Lemma execute_rel i t key tn bA bM okA bA' okM bM' :
+  null (td_cmd t) = false -> i < rt_len bA -> i < rt_len bM ->
+  b_cache bA = b_cache bM -> w_ext (b_world bA) = w_ext (b_world bM) ->
+  rt_ohash (get_rt bA i) = rt_ohash (get_rt bM i) ->
+  dep_parts s (w_ws (b_world bA)) (td_deps t) = dep_parts s (w_ws (b_world bM)) (td_deps t) ->
+  execute H cfgA s i t key tn bA = (okA, bA') -> execute H cfgM s i t key tn bM = (okM, bM') ->
+  okA = okM /\ b_cache bA' = b_cache bM' /\ w_ext (b_world bA') = w_ext (b_world bM') /\
+  rt_ohash (get_rt bA' i) = rt_ohash (get_rt bM' i) /\
+  (okA = true -> forall o, In o (td_outs t) ->
+     ws_get (out_path t o) (w_ws (b_world bA')) = ws_get (out_path t o) (w_ws (b_world bM'))).
+Proof.
+  intros Hcmd HiA HiM Hc He Ho Hd EA EM. rewrite execute_eq in EA, EM. unfold exec_ran in EA, EM.
+  rewrite Hcmd in EA, EM. pose proof (run_command_rel s t _ _ Hd He) as Hrel.
+  assert (Hfail : forall wa wm, w_ext wa = w_ext wm ->
+            (false, set_world (exec_b0 t bA) wa) = (okA, bA') ->
+            (false, set_world (exec_b0 t bM) wm) = (okM, bM') ->
+            okA = okM /\ b_cache bA' = b_cache bM' /\ w_ext (b_world bA') = w_ext (b_world bM') /\
+            rt_ohash (get_rt bA' i) = rt_ohash (get_rt bM' i) /\
+            (okA = true -> forall o, In o (td_outs t) ->
+               ws_get (out_path t o) (w_ws (b_world bA')) = ws_get (out_path t o) (w_ws (b_world bM')))).
+  { intros wa wm Hw E1 E2. inversion E1; subst okA bA'. inversion E2; subst okM bM'.
+    rewrite !b_cache_set_world, !exec_b0_cache, !b_world_set_world, !get_rt_set_world, !exec_b0_get_rt.
+    repeat split; auto. discriminate. }
+  destruct (run_command s t (b_world bA)) as [wa|]; destruct (run_command s t (b_world bM)) as [wm|];
+    try contradiction.
+  2:{ apply (Hfail _ _) with (2 := EA) (3 := EM). rewrite !run_command_failed_world_ext. exact He. }
+  destruct Hrel as [Hext Hown].
+  assert (Hck : check_ok wa t = check_ok wm t) by (unfold check_ok; rewrite Hext; reflexivity).
+  rewrite Hck in EA. destruct (check_ok wm t); [|apply (Hfail _ _ Hext EA EM)].
+  rewrite (present_digests_ext t _ _ _ Hown) in EA.
+  destruct (present_digests H t (td_outs t) (w_ws wm)) as [ds|]; [|apply (Hfail _ _ Hext EA EM)].
+  inversion EA; subst okA bA'. inversion EM; subst okM bM'.
+  rewrite !exec_done_cache, !exec_done_world, !exec_done_rt by assumption.
+  rewrite Hc. unfold done_cache. rewrite (oc_pair_cfg cfgA cfgM) by congruence.
+  repeat split; auto.
+Qed.
+
+(* ------------------------------------------------------------------ mode all: one task keeps [coreA] *)
+Lemma cur_transfer b b' j tj :
+  cur b j tj -> get_rt b' j = get_rt b j ->
+  (forall key, rt_key (get_rt b j) = Some key ->
+     rlookup key (c_results (b_cache b')) = rlookup key (c_results (b_cache b))) ->
+  (forall o, In o (td_outs tj) ->
+     ws_get (out_path tj o) (w_ws (b_world b')) = ws_get (out_path tj o) (w_ws (b_world b))) ->
+  cur b' j tj.
+Proof.
+  intros (key & r & Hk & Hr & Hoh & Hm & Hc) Hrt Hres Hws. exists key, r. rewrite Hrt.
+  split; [exact Hk|]. split; [rewrite (Hres key Hk); exact Hr|]. split; [exact Hoh|]. split; [exact Hm|].
+  intros o dg Ho Hin. rewrite (Hws o Ho). apply Hc; assumption.
+Qed.
+
+Lemma coreA_step k t key b b' :
+  node_at s k = Some (NTarget t) -> coreA b ->
+  cinv (b_cache b') -> nowk (w_ws (b_world b')) -> rt_len b' = rt_len b ->
+  (forall j, j <> k -> get_rt b' j = get_rt b j) ->
+  (forall p, not_own t p -> ws_get p (w_ws (b_world b')) = ws_get p (w_ws (b_world b))) ->
+  (forall key', key' <> key ->
+     rlookup key' (c_results (b_cache b')) = rlookup key' (c_results (b_cache b))) ->
+  (forall j, j <> k -> rt_key (get_rt b j) <> Some key) ->
+  (dep_ok b' k = true -> rt_loaded (get_rt b' k) = true /\ cur b' k t) ->
+  coreA b'.
+Proof.
+  intros Hn (Hci & Hwk & Hlen & Hgood) Hci' Hwk' Hlen' Hoth Hws Hres Hfresh Hk.
+  split; [exact Hci'|]. split; [exact Hwk'|]. split; [congruence|].
+  intros j tj Hnj Hok. destruct (Nat.eq_dec j k) as [->|Hne].
+  - rewrite Hn in Hnj. inversion Hnj; subst tj. apply Hk, Hok.
+  - unfold dep_ok in Hok. rewrite (Hoth j Hne) in Hok. destruct (Hgood j tj Hnj Hok) as [Hl Hc].
+    split; [rewrite (Hoth j Hne); exact Hl|].
+    apply (cur_transfer b b' j tj Hc (Hoth j Hne)).
+    + intros key' Hk'. apply Hres. intro E. subst key'. apply (Hfresh j Hne Hk').
+    + intros o Ho. apply Hws. intros o' Ho'. apply (no_overwrite_other s j k tj t o o'); auto.
+Qed.
+
+Lemma coreA_pt_b0 k key b : dep_ok b k = false -> coreA b -> coreA (pt_b0 k key b).
+Proof.
+  intros Hk (Hci & Hwk & Hlen & Hgood). split; [exact Hci|]. split; [exact Hwk|].
+  split; [rewrite pt_b0_len; exact Hlen|].
+  intros j tj Hnj Hok. destruct (Nat.eq_dec j k) as [->|Hne].
+  - unfold dep_ok, pt_b0 in Hok. rewrite (get_rt_set_rt_field rt_status) in Hok by reflexivity.
+    unfold dep_ok in Hk. congruence.
+  - unfold dep_ok in Hok. rewrite pt_b0_other in Hok by exact Hne.
+    destruct (Hgood j tj Hnj Hok) as [Hl Hc]. rewrite pt_b0_other by exact Hne. split; [exact Hl|].
+    apply (cur_transfer b _ j tj Hc); [apply pt_b0_other, Hne | reflexivity | reflexivity].
+Qed.
+
+(* a cache hit in mode all: the restore succeeds and node k becomes current *)
+Lemma hitA k t key res b b1 :
+  node_at s k = Some (NTarget t) -> coreA b -> get_rt b k = rt0 ->
+  (forall j, rt_key (get_rt b j) <> Some key) ->
+  rlookup key (c_results (b_cache b)) = Some res ->
+  load_outputs H k t res (pt_b0 k key b) = (true, b1) ->
+  coreA (mark b1 k THit) /\
+  b_cache b1 = b_cache b /\ b_exec b1 = b_exec b /\ b_stop b1 = b_stop b /\
+  w_ext (b_world b1) = w_ext (b_world b) /\ rt_len b1 = rt_len b /\
+  get_rt b1 k = mkRt (Some key) (Some (r_outhash res)) true TNone /\
+  (forall j, j <> k -> get_rt b1 j = get_rt b j) /\
+  (forall p, not_own t p -> ws_get p (w_ws (b_world b1)) = ws_get p (w_ws (b_world b))).
+Proof.
+  intros Hn HC Hk0 Hfresh Hr E. pose proof HC as (Hci & Hwk & Hlen & Hgood).
+  assert (Hk : k < rt_len b) by (rewrite Hlen; eapply node_at_lt; eauto).
+  set (b0 := pt_b0 k key b) in *.
+  assert (H0 : get_rt b0 k = mkRt (Some key) None false TNone).
+  { unfold b0. rewrite pt_b0_same by exact Hk. rewrite Hk0. reflexivity. }
+  apply load_outputs_cases in E as [(Hf & _)|(Hm & ws' & Ela & Hb)];
+    [discriminate | | rewrite H0; reflexivity].
+  cbn zeta in Hb. rewrite H0 in Hb. cbn [rt_key rt_status] in Hb.
+  assert (Hws : w_ws (b_world b1) = ws') by (subst b1; reflexivity).
+  assert (Hsame : get_rt b1 k = mkRt (Some key) (Some (r_outhash res)) true TNone).
+  { subst b1. rewrite get_rt_set_rt_same; [reflexivity|]. rewrite rt_len_set_world. unfold b0.
+    rewrite pt_b0_len. exact Hk. }
+  assert (Hoth : forall j, j <> k -> get_rt b1 j = get_rt b j).
+  { intros j Hj. subst b1. rewrite get_rt_set_rt_other by auto. rewrite get_rt_set_world.
+    apply pt_b0_other, Hj. }
+  assert (Hfr : forall p, not_own t p -> ws_get p (w_ws (b_world b1)) = ws_get p (w_ws (b_world b))).
+  { intros p Hp. rewrite Hws. apply (Build_c01_proofs.load_all_frame H _ _ _ _ _ _ Ela p Hp). }
+  assert (Hlen1 : rt_len b1 = rt_len b).
+  { subst b1. rewrite rt_len_set_rt, rt_len_set_world. apply pt_b0_len. }
+  split; [|subst b1; repeat split; auto].
+  apply (coreA_step k t key b); auto.
+  - rewrite b_cache_mark. subst b1. exact Hci.
+  - rewrite b_world_mark, Hws. eapply nowk_le; [|exact Hwk].
+    pose proof (load_all_wk H (b_cache b0) t (r_outs res) (w_ws (b_world b0))) as Hle.
+    rewrite Ela in Hle. exact Hle.
+  - rewrite rt_len_mark. exact Hlen1.
+  - intros j Hj. rewrite get_rt_mark_other by auto. apply Hoth, Hj.
+  - rewrite b_cache_mark. subst b1. reflexivity.
+  - intros _. split; [rewrite rt_loaded_mark, Hsame; reflexivity|].
+    exists key, res. rewrite rt_key_mark, rt_ohash_mark, Hsame, b_cache_mark, b_world_mark.
+    split; [reflexivity|]. split; [subst b1; exact Hr|]. split; [reflexivity|]. split; [exact Hm|].
+    intros o dg Ho Hin.
+    destruct (outputs_match_entry t res o Hm Ho) as (_ & _ & Hf).
+    destruct (load_all_cur _ _ _ _ _ (outputs_match_nodup t res (own_nodup k t Hn) Hm)
+                (own_nodup k t Hn) Ela _ _ _ Hin Hf) as (x & Hx & Hd).
+    exists x. rewrite Hws. split; [exact Hx|].
+    apply (cur_digest (b_cache b) key res (out_def o) dg o x Hci Hr Hin eq_refl Hd).
+Qed.
+
+(* ------------------------------------------------------------------ what a successful command leaves *)
+Lemma run_command_reads t w w' :
+  run_command s t w = Some w' -> exists reads, dep_parts s (w_ws w) (td_deps t) = Some reads.
+Proof.
+  unfold run_command. intro E.
+  destruct (dep_parts s (w_ws w) (td_deps t)) as [reads|]; [eauto|].
+  destruct (td_beh t); discriminate.
+Qed.
+
+Lemma run_command_T t w w' :
+  NoDup (map (out_path t) (td_outs t)) ->
+  run_command s t w = Some w' -> check_ok w' t = true ->
+  (forall o, In o (td_outs t) -> exists x, ws_get (out_path t o) (w_ws w') = PFile x) ->
+  forall o x, In o (td_outs t) -> ws_get (out_path t o) (w_ws w') = PFile x -> exists r, x = "T"%char :: r.
+Proof.
+  intros Hnd Er Hck Hall o x Ho Hx. destruct (run_command_reads t w w' Er) as [reads Hd].
+  destruct (run_command_ok s t w w' reads Er Hd Hnd Hck Hall) as [_ Hc].
+  assert (Hin : In o (map fst (ideal_outs s t 0 (td_outs t) reads))) by (rewrite ideal_outs_fst; exact Ho).
+  apply in_map_iff in Hin as ([o' x'] & Ho' & Hin). cbn [fst] in Ho'. subst o'.
+  rewrite (Hc o x' Hin) in Hx. inversion Hx; subst x'. eapply ideal_outs_T; eauto.
+Qed.
+
+Lemma oc_pair_plain cfg t key c ds :
+  td_nocache t = false -> cfg_cache cfg = true ->
+  oc_pair H cfg t key c ds =
+  match td_outs t with
+  | [] => (mkRes key [], c_cas c)
+  | _ => (mkRes (output_hash H (map (fun e => ser_out (fst (fst e)) (snd (fst e))) ds))
+                (map (fun e => (out_def (fst (fst e)), snd (fst e))) ds), cas_fold ds (c_cas c))
+  end.
+Proof. intros Hn Hc. unfold oc_pair. rewrite Hn, Hc. reflexivity. Qed.
+
+Definition ds_ok (ds : list (outdef * str * str)) : Prop :=
+  forall e, In e ds -> exists o x, e = (o, out_digest H o x, x) /\ exists r, x = "T"%char :: r.
+
+Lemma done_cache_results cfg t key tn c ds :
+  c_results (done_cache cfg t key tn c ds) = results_set key (fst (oc_pair H cfg t key c ds)) (c_results c).
+Proof. unfold done_cache. destruct tn; reflexivity. Qed.
+
+Lemma done_cache_cas cfg t key tn c ds :
+  c_cas (done_cache cfg t key tn c ds) = snd (oc_pair H cfg t key c ds).
+Proof. unfold done_cache. destruct tn; reflexivity. Qed.
+
+Lemma done_cache_cinv cfg t key tn c ds :
+  td_nocache t = false -> cfg_cache cfg = true -> cinv c -> ds_ok ds ->
+  cinv (done_cache cfg t key tn c ds).
+Proof.
+  intros Hn Hc [Hs Hres] Hds. unfold cinv, res_ok.
+  rewrite done_cache_results, done_cache_cas, (oc_pair_plain cfg t key c ds Hn Hc).
+  destruct (td_outs t) as [|o0 outs]; cbn [fst snd].
+  - split; [exact Hs|]. intros k r def dg Hr Hin.
+    destruct (str_eq_dec key k) as [->|Hne].
+    + rewrite rlookup_set_same in Hr. inversion Hr; subst r. destruct Hin.
+    + rewrite rlookup_set_other in Hr by exact Hne. eapply Hres; eauto.
+  - destruct (cas_fold_sound3 ds (c_cas c) Hs) as [Hs' Hhas].
+    { intros e He. destruct (Hds e He) as (o & x & -> & HT). cbn [fst snd].
+      apply (blob_ok_digest H H_inj). exact HT. }
+    split; [exact Hs'|]. intros k r def dg Hr Hin.
+    destruct (str_eq_dec key k) as [->|Hne].
+    + rewrite rlookup_set_same in Hr. inversion Hr; subst r. cbn [r_outs] in Hin.
+      apply in_map_iff in Hin as (e & He & Hin). destruct (Hds e Hin) as (o & x & -> & _).
+      cbn [fst snd] in He. inversion He; subst def dg. exists o, x. split; [reflexivity|].
+      split; [reflexivity|]. apply (Hhas _ Hin).
+    + rewrite rlookup_set_other in Hr by exact Hne.
+      destruct (Hres k r def dg Hr Hin) as (o & x & Hd & Hg & Hc').
+      exists o, x. split; [exact Hd|]. split; [exact Hg|].
+      apply Build_c02_proofs.cas_fold_mono. exact Hc'.
+Qed.
+
+Lemma execute_len cfg i t key tn b ok b' : execute H cfg s i t key tn b = (ok, b') -> rt_len b' = rt_len b.
+Proof.
+  intro E. destruct ok.
+  - apply (eo_len _ _ _ _ _ _ (Build_single_proofs.execute_ok H _ _ _ _ _ _ _ _ E)).
+  - destruct (execute_fail H _ _ _ _ _ _ _ _ E) as (_ & _ & _ & _ & F5 & _). exact F5.
+Qed.
+
+(* executing node k in a cache-enabled build keeps [coreA] *)
+Lemma execA cfg k t key tn b ok b3 :
+  cfg_cache cfg = true -> node_at s k = Some (NTarget t) -> coreA b -> get_rt b k = rt0 ->
+  (forall j, rt_key (get_rt b j) <> Some key) ->
+  execute H cfg s k t key tn (pt_b0 k key b) = (ok, b3) ->
+  coreA (mark b3 k (if ok then TExecuted else TFailed)).
+Proof.
+  intros Hcc Hn HC Hk0 Hfresh E. pose proof HC as (Hci & Hwk & Hlen & Hgood).
+  destruct (plain_target s k t Hpl Hn) as [Hcmd Hnc].
+  assert (Hk : k < rt_len (pt_b0 k key b)) by (rewrite pt_b0_len, Hlen; eapply node_at_lt; eauto).
+  destruct (execute_shape H cfg s k t key tn _ ok b3 Hk E) as (Hoth & Hws & Hf & Ht).
+  pose proof (Build_c02_proofs.execute_frame H _ _ _ _ _ _ _ _ _ E) as (_ & _ & Hle & _).
+  pose proof (execute_len _ _ _ _ _ _ _ _ E) as Hl3. rewrite pt_b0_len in Hl3.
+  apply (coreA_step k t key b); auto.
+  - (* cache *)
+    destruct ok; [|destruct (Hf eq_refl) as [_ Hc]; rewrite b_cache_mark, Hc; exact Hci].
+    rewrite execute_eq in E. unfold exec_ran in E. rewrite Hcmd in E.
+    destruct (run_command s t (b_world (pt_b0 k key b))) as [w'|] eqn:Er; [|discriminate].
+    destruct (check_ok w' t) eqn:Eck; [|discriminate].
+    destruct (present_digests H t (td_outs t) (w_ws w')) as [ds|] eqn:Epd; [|discriminate].
+    inversion E; subst b3. rewrite b_cache_mark, exec_done_cache. apply done_cache_cinv; auto.
+    intros e He. destruct (present_digests_struct t _ _ _ Epd e He) as (o & x & -> & Ho & Hx).
+    exists o, x. split; [reflexivity|].
+    apply (run_command_T t _ w' (own_nodup k t Hn) Er Eck (proj2 (present_digests_spec H t _ _ _ Epd)) o x Ho Hx).
+  - rewrite b_world_mark. eapply nowk_le; [exact Hle | exact Hwk].
+  - rewrite rt_len_mark. exact Hl3.
+  - intros j Hj. rewrite get_rt_mark_other, Hoth by auto. apply pt_b0_other, Hj.
+  - intros key' Hk'. rewrite b_cache_mark. destruct ok.
+    + destruct (Ht eq_refl) as (res & _ & Hr & _). rewrite Hr. apply rlookup_set_other. congruence.
+    + destruct (Hf eq_refl) as [_ Hc]. rewrite Hc. reflexivity.
+  - (* node k *)
+    intro Hok. destruct ok.
+    2:{ unfold dep_ok in Hok. destruct (rt_status_mark b3 k TFailed) as [Es|Es]; rewrite Es in Hok; discriminate. }
+    rewrite execute_eq in E. unfold exec_ran in E. rewrite Hcmd in E.
+    destruct (run_command s t (b_world (pt_b0 k key b))) as [w'|] eqn:Er; [|discriminate].
+    destruct (check_ok w' t) eqn:Eck; [|discriminate].
+    destruct (present_digests H t (td_outs t) (w_ws w')) as [ds|] eqn:Epd; [|discriminate].
+    inversion E; subst b3.
+    split; [rewrite rt_loaded_mark, exec_done_rt by exact Hk; reflexivity|].
+    set (res := fst (oc_pair H cfg t key (b_cache (pt_b0 k key b)) ds)).
+    exists key, res. rewrite rt_key_mark, rt_ohash_mark, b_cache_mark, b_world_mark.
+    rewrite exec_done_rt by exact Hk. rewrite exec_done_cache, done_cache_results, exec_done_world.
+    cbn [rt_key rt_ohash]. split; [apply pt_b0_key; rewrite <- pt_b0_len with (i := k) (key := key); exact Hk|].
+    split; [apply rlookup_set_same|]. split; [reflexivity|].
+    destruct (present_digests_spec H t _ _ _ Epd) as [Hmap Hall].
+    split; [apply oc_pair_match; auto|].
+    intros o dg Ho Hin. unfold res in Hin. rewrite (oc_pair_plain cfg t key _ ds Hnc Hcc) in Hin.
+    destruct (td_outs t) as [|o0 outs] eqn:Eo; [destruct Ho|]. cbn [fst r_outs] in Hin.
+    apply in_map_iff in Hin as (e & He & Hine).
+    destruct (present_digests_struct t _ _ _ Epd e Hine) as (o' & x & -> & Ho' & Hx).
+    cbn [fst snd] in He. inversion He as [[Hd Hg]]. apply out_def_inj in Hd. subst o'.
+    exists x. split; [exact Hx | reflexivity].
+Qed.
+
+(* ------------------------------------------------------------------ keeping [sim] across a step at node k *)
+Lemma sim_step k t bA bM bA' bM' :
+  node_at s k = Some (NTarget t) -> sim bA bM ->
+  b_cache bA' = b_cache bM' -> b_exec bA' = b_exec bM' -> b_stop bA' = b_stop bM' ->
+  w_ext (b_world bA') = w_ext (b_world bM') -> rt_len bA' = rt_len bM' ->
+  (forall j, j <> k -> get_rt bA' j = get_rt bA j) ->
+  (forall j, j <> k -> get_rt bM' j = get_rt bM j) ->
+  (rt_key (get_rt bA' k) = rt_key (get_rt bM' k) /\ rt_ohash (get_rt bA' k) = rt_ohash (get_rt bM' k) /\
+   rt_status (get_rt bA' k) = rt_status (get_rt bM' k)) ->
+  nowk (w_ws (b_world bM')) ->
+  (forall p, not_own t p -> ws_get p (w_ws (b_world bA')) = ws_get p (w_ws (b_world bA))) ->
+  (forall p, not_own t p -> ws_get p (w_ws (b_world bM')) = ws_get p (w_ws (b_world bM))) ->
+  (rt_loaded (get_rt bM' k) = true -> dep_ok bM' k = true /\
+     forall o, In o (td_outs t) ->
+       ws_get (out_path t o) (w_ws (b_world bM')) = ws_get (out_path t o) (w_ws (b_world bA'))) ->
+  sim bA' bM'.
+Proof.
+  intros Hn (Sc & Sx & Ss & Se & Sl & Srt & Swk & Sld) Hc Hx Hs He Hl HoA HoM Hk Hwk HwA HwM Hkl.
+  split; [exact Hc|]. split; [exact Hx|]. split; [exact Hs|]. split; [exact He|]. split; [exact Hl|].
+  split; [|split; [exact Hwk|]].
+  - intro j. destruct (Nat.eq_dec j k) as [->|Hne]; [exact Hk|]. rewrite HoA, HoM by exact Hne. apply Srt.
+  - intros j tj Hnj Hlj. destruct (Nat.eq_dec j k) as [->|Hne].
+    + rewrite Hn in Hnj. inversion Hnj; subst tj. apply Hkl, Hlj.
+    + rewrite HoM in Hlj by exact Hne. destruct (Sld j tj Hnj Hlj) as [Hd Hw]. split.
+      * unfold dep_ok. rewrite HoM by exact Hne. exact Hd.
+      * intros o Ho.
+        assert (Hp : not_own t (out_path tj o)).
+        { intros o' Ho'. apply (no_overwrite_other s j k tj t o o'); auto. }
+        rewrite (HwA _ Hp), (HwM _ Hp). apply Hw, Ho.
+Qed.
+
+
+Lemma dep_hashes_sim bA bM : sim bA bM -> forall ds, dep_hashes s bA ds = dep_hashes s bM ds.
+Proof.
+  intros (_ & _ & _ & _ & _ & Srt & _). induction ds as [|d ds IH]; cbn [dep_hashes]; [reflexivity|].
+  destruct (resolve s d) as [[j tj]|]; [|reflexivity]. rewrite IH.
+  rewrite (proj1 (proj2 (Srt j))). reflexivity.
+Qed.
+
+Lemma hit_cond_sim t bA bM : sim bA bM -> hit_cond cfgM t bM = hit_cond cfgA t bA.
+Proof.
+  intros (Sc & _ & _ & Se & _). unfold hit_cond, pt_tainted, check_ok. rewrite Sc, Se, HcA, HcM. reflexivity.
+Qed.
+
+Lemma coreA_mark k st b :
+  (st_ok st = true -> forall t, node_at s k <> Some (NTarget t)) -> coreA b -> coreA (mark b k st).
+Proof.
+  intros Hst (Hci & Hwk & Hlen & Hgood). split; [exact Hci|]. split; [exact Hwk|].
+  split; [rewrite rt_len_mark; exact Hlen|].
+  intros j tj Hnj Hok. destruct (Nat.eq_dec j k) as [->|Hne].
+  - exfalso. unfold dep_ok in Hok.
+    destruct (rt_status_mark b k st) as [E|E]; rewrite E in Hok; [|discriminate].
+    apply (Hst Hok tj Hnj).
+  - unfold dep_ok in Hok. rewrite get_rt_mark_other in Hok by auto.
+    destruct (Hgood j tj Hnj Hok) as [Hl Hc]. rewrite get_rt_mark_other by auto. split; [exact Hl|].
+    apply (cur_transfer b _ j tj Hc); [apply get_rt_mark_other; auto | reflexivity | reflexivity].
+Qed.
+
+Lemma sim_mark k st bA bM : sim bA bM -> dep_ok bA k = false -> sim (mark bA k st) (mark bM k st).
+Proof.
+  intros HS Hk. pose proof HS as (Sc & Sx & Ss & Se & Sl & Srt & Swk & Sld).
+  split; [exact Sc|]. split; [exact Sx|]. split; [exact Ss|]. split; [exact Se|].
+  split; [rewrite !rt_len_mark; exact Sl|]. split; [|split; [exact Swk|]].
+  - intro j. rewrite !rt_key_mark, !rt_ohash_mark. destruct (Srt j) as (K1 & K2 & K3).
+    split; [exact K1|]. split; [exact K2|].
+    destruct (Nat.eq_dec j k) as [->|Hne]; [|rewrite !get_rt_mark_other by auto; exact K3].
+    destruct (lt_dec k (rt_len bA)) as [Hlt|Hge].
+    + rewrite !rt_status_mark_same; [reflexivity | rewrite <- Sl; exact Hlt | exact Hlt].
+    + rewrite !rt_status_mark_oob; [reflexivity | rewrite <- Sl; lia | lia].
+  - intros j tj Hnj Hl. rewrite rt_loaded_mark in Hl. destruct (Sld j tj Hnj Hl) as [Hd Hw].
+    assert (Hne : j <> k).
+    { intros ->. rewrite (sim_dep_ok bA bM k HS) in Hd. congruence. }
+    split; [|exact Hw]. unfold dep_ok. rewrite get_rt_mark_other by auto. exact Hd.
+Qed.
+
+Lemma goodA_finish c0 k bA b' :
+  goodA c0 k bA -> coreA b' ->
+  (forall j, j <> k -> get_rt b' j = get_rt bA j) ->
+  (forall key', rlookup key' (c_results (b_cache b')) = rlookup key' (c_results (b_cache bA)) \/
+                rt_key (get_rt b' k) = Some key') ->
+  goodA c0 (S k) b'.
+Proof.
+  intros (_ & Hz & Horig) HC Hoth Hres. split; [exact HC|]. split.
+  - intros j Hj. rewrite Hoth by lia. apply Hz. lia.
+  - intro key'. destruct (Hres key') as [E|E]; [|right; exists k; exact E].
+    rewrite E. destruct (Horig key') as [O|(j & Hj)]; [left; exact O|]. right. exists j.
+    destruct (Nat.eq_dec j k) as [->|Hne]; [|rewrite Hoth by exact Hne; exact Hj].
+    rewrite (Hz k (le_n _)) in Hj. discriminate.
+Qed.
+End Build1.
+End Lockstep.
